@@ -345,18 +345,20 @@ def bodyDecode (C : Crypto) (cmd : Cmd) (b : Body) (buf : Bytes) : Body × Bytes
     if r.failed then (r.st, r.buf, .err) else if r.out.isEmpty then (r.st, r.buf, .more) else (r.st, r.buf, .ok r.out)
   | .udp => bodyDrainPacket C 3 b buf
 
+/-- the body part of `ClientAEADCodec::decode` (`self.decode(src)` once the body decoder exists) -/
+def Client.finish (C : Crypto) (c : Client) (body : Body) (buf : Bytes) : Call Client :=
+  let kind : ItemKind := if c.cmd = .tcp then .data else .udp
+  if buf.isEmpty then ⟨c, buf, .more⟩ else
+  match bodyDecode C c.cmd body buf with
+  | (b', buf', .ok o) => ⟨{ c with dec := some b' }, buf', .ok ⟨kind, o, none⟩⟩
+  | (b', buf', .more) => ⟨{ c with dec := some b' }, buf', .more⟩
+  | (b', buf', _) => ⟨{ c with dec := some b' }, buf', .err⟩
+
 /-- `ClientAEADCodec::decode` -/
 def Client.decode (C : Crypto) (c : Client) (buf : Bytes) : Call Client :=
   if buf.isEmpty then ⟨c, buf, .more⟩ else
-  let kind : ItemKind := if c.cmd = .tcp then .data else .udp
-  let finish (c : Client) (body : Body) (buf : Bytes) : Call Client :=
-    if buf.isEmpty then ⟨c, buf, .more⟩ else
-    match bodyDecode C c.cmd body buf with
-    | (b', buf', .ok o) => ⟨{ c with dec := some b' }, buf', .ok ⟨kind, o, none⟩⟩
-    | (b', buf', .more) => ⟨{ c with dec := some b' }, buf', .more⟩
-    | (b', buf', _) => ⟨{ c with dec := some b' }, buf', .err⟩
   match c.dec with
-  | some body => finish c body buf
+  | some body => c.finish C body buf
   | none =>
     match c.session with
     | none => ⟨c, buf, .err⟩    -- (not reachable: the client encodes before it decodes)
@@ -377,7 +379,7 @@ def Client.decode (C : Crypto) (c : Client) (buf : Bytes) : Call Client :=
         | some h =>
           if h.head? ≠ some s.respHeader then ⟨c, rest, .err⟩ else
           let body := Body.new C c.mask c.sec (s.respKey C) (s.respIv C) s
-          finish { c with dec := some body } body rest
+          Client.finish C { c with dec := some body } body rest
 
 /-! ### server -/
 
